@@ -9,8 +9,8 @@ namespace Sys.C07
 under the handler the model assumes: destinations under `except Exception`, everything else under a
 bare `except`. -/
 theorem skeleton_E5 : Generated.handlers = [
-    ("Destinations.send", "dest", "Exception"),
-    ("Destinations.send", "log_message", "bare"),
+    ("Destinations._send_to", "dest", "Exception"),
+    ("Destinations._send_to", "log_message", "bare"),
     ("Logger.write", "serializer.serialize", "bare"),
     ("_safe_unicode_dictionary", "dict", "bare"),
     ("ErrorExtraction.get_fields_for_exception", "extractor", "bare"),
